@@ -2,7 +2,7 @@
    (Gen/Fn_Did.v: ReadDataByIdentifier.interpret_response with its loop over the DIDs of the response, the zero-padding rule, the codec
    lookup, then the client's checks): every path ends in the decoded values or in a documented exception class (C04). *)
 From Coq Require Import ZArith List Bool String Lia ZifyBool.
-From UDS Require Import Lib.Bytes Lib.ErrM Lib.PyOps Gen.Fn_Did Proofs.Tie_common Proofs.Tie_simple_doc.
+From UDS Require Import Lib.Bytes Lib.ErrM Lib.PyOps Gen.Fn_DidInt Proofs.Tie_common Proofs.Tie_simple_doc.
 Import ListNotations.
 Open Scope Z_scope.
 
